@@ -418,7 +418,10 @@ def rules(ctx: Ctx) -> None:
 
     # ---- R01.12 (= R12.2, shared caches): what is reported for a statement is a function of the statement, the dialect and the configuration -
     # a parse cache or memo shared by all analyzers and keyed by the text alone answers with another dialect's tree
-    _imp01(ctx, "C12", {"R12.2": "R01.12"}, key_filter=lambda o: o.key.startswith(("class-level-mutable", "analyzer-class-state", "memoised")))
+    _imp01(ctx, "C12", {"R12.2": "R01.12"}, key_filter=lambda o: o.key.startswith(("class-level-mutable", "analyzer-class-state", "memoised", "default-arg-mutable", "module-state")))
+    # (= R05.3) nothing written while one statement (or one query of it) is analysed is carried into the next: extractors kept across statements
+    # report the tables of an earlier SELECT for a later one
+    _imp01(ctx, "C05", {"R05.3": "R01.12"}, key_filter=lambda o: o.key.startswith(("analyzer-state", "per-query-object")))
 
     # ---- R01.13 what the discovery routines find is registered as found: a loop over the tables of a FROM / JOIN clause calls add_read on every
     # path through its body (a filter between discovery and registration - "the target listed again is not a source" - loses a table the
